@@ -44,6 +44,9 @@ def xy_mask_case(ctx, idx, rng):
                                                           gen.pick(rng, [30.0, 12.0])]})
     ops.insert(rng.randint(0, len(ops)), {"op": "config_slm_mask", "qubits": masked})
     d1 = gen.pick(rng, [16, 40, 100])
+    if idx % 16 == 3:  # the first pulse of the sequence (and with it the mask) starts after t = 0
+        ops.append({"op": "delay", "duration": [16, 48, 120][(idx // 16) % 3], "ch": "mwa"})
+        ctx.count("xy_mask_scripts_with_a_late_first_pulse")
     ops.append({"op": "add", "pulse": gen.gen_pulse(rng, spec, d=d1, pps_p=0.0, arb=0.0), "ch": "mwa"})
     if rng.random() < 0.5:
         ops.append({"op": "declare_channel", "name": "mwb", "ch_id": "mw_global"})
@@ -134,7 +137,7 @@ def shared_map_case(ctx, idx, rng):
 
 
 def run_case(ctx, idx, rng, tier):
-    if idx % 16 == 11:
+    if idx % 16 == 13:
         return shared_map_case(ctx, idx, rng)
     if idx % 8 == 3:
         return xy_mask_case(ctx, idx, rng)
